@@ -22,6 +22,18 @@ pub static FORCED_RUNS: std::sync::atomic::AtomicU64 = std::sync::atomic::Atomic
 pub static DECOY: std::sync::atomic::AtomicBool = std::sync::atomic::AtomicBool::new(false);
 pub static DECOY_STEPS: std::sync::atomic::AtomicU64 = std::sync::atomic::AtomicU64::new(0);
 
+/// every second history runs next to a decoy that also holds a pointer whose target lies just
+/// below usize::MAX (its first relocation fails or overflows)
+fn decoy_new_for(hist_len: usize) -> Option<BinArchive> {
+    let mut d = decoy_new();
+    if hist_len % 2 == 1 {
+        if let Some(a) = d.as_mut() {
+            let _ = a.write_pointer(16, Some(usize::MAX - 1));
+        }
+    }
+    d
+}
+
 fn decoy_new() -> Option<BinArchive> {
     let mut c = Content::new(End::Little);
     c.data = (0..24u8).map(|i| 0xA0 | i).collect();
@@ -38,8 +50,25 @@ fn decoy_new() -> Option<BinArchive> {
 /// the k-th call of a fixed cycle on the decoy archive (results ignored: only the archive under
 /// test is judged)
 fn decoy_step(d: &mut Option<BinArchive>, k: usize) {
-    let Some(a) = d.as_mut() else { return };
+    if d.is_none() {
+        return;
+    }
     DECOY_STEPS.fetch_add(1, std::sync::atomic::Ordering::Relaxed);
+    // the decoy may be in a degenerate state (a pointer whose target lies near usize::MAX makes
+    // the next relocation fail or overflow): whatever happens to IT is ignored, panics included
+    let mut taken = d.take();
+    let r = util::catch(move || {
+        decoy_step_inner(&mut taken, k);
+        taken
+    });
+    *d = match r {
+        Ok(t) => t,
+        Err(_) => decoy_new(),
+    };
+}
+
+fn decoy_step_inner(d: &mut Option<BinArchive>, k: usize) {
+    let Some(a) = d.as_mut() else { return };
     match k % 8 {
         0 => {
             let _ = a.allocate(4, 8, false);
@@ -320,7 +349,7 @@ impl Sys {
 
     pub fn rebuild_with_decoy(&self, init: usize, hist: &[Op]) -> Result<(BinArchive, Option<BinArchive>), String> {
         let mut a = arch::build(&self.inits[init], None)?;
-        let mut decoy = if DECOY.load(std::sync::atomic::Ordering::Relaxed) { decoy_new() } else { None };
+        let mut decoy = if DECOY.load(std::sync::atomic::Ordering::Relaxed) { decoy_new_for(hist.len()) } else { None };
         for (k, op) in hist.iter().enumerate() {
             decoy_step(&mut decoy, k);
             let _ = apply_real(&mut a, op);
